@@ -33,7 +33,8 @@
 (*                                                                         *)
 (* Outcomes(tab, h, qt) is the SET of admissible outcomes.  It is a        *)
 (* singleton except where the statement is silent; every such place is     *)
-(* marked SILENT below and listed in notes/C06.md.  The table is edited    *)
+(* marked SILENT below and listed in notes/C06.md (ties between CNAME       *)
+(* entries, which wildcard entries compete, cycles).  The table is edited    *)
 (* through TabAdd / TabDelete / TabUpdate (the three API calls); saving    *)
 (* the configuration (TabSave) leaves it as it is.                         *)
 (***************************************************************************)
@@ -88,42 +89,65 @@ IsSelf(e, h) == IsCname(e) /\ (e.t = h \/ e.t = PatName(e))
 
 \* -------------------------------------------------------------- addresses
 (***************************************************************************)
-(* Which address entries compete for a question of type qt?  The statement *)
-(* says "within one kind"; the documentation never defines "kind" beyond   *)
-(* CNAME versus address.  Three readings exist and the spec admits all     *)
-(* three -- SILENT (kind):                                                 *)
-(*   "kind"    literally: every address entry (either family, both         *)
-(*             keywords) competes; an exact AAAA-only entry then shadows   *)
-(*             a wildcard A entry for an A question.                       *)
-(*   "family"  per record type: only entries that say something about qt.  *)
-(*   "famexc"  the documented mechanism of matchesQType ("if the types     *)
-(*             match or the entry is set to allow only the other type,     *)
-(*             include them"): entries for qt plus both keywords.          *)
+(* Known deviations.  Four behaviours of the implementation contradict the *)
+(* statement and are listed as findings; so that a disagreement can be     *)
+(* attributed to exactly one of them, every operator below takes a set L   *)
+(* of deviations to ADMIT.  The specification proper is L = {} (Outcomes); *)
+(* L # {} is used only to classify a disagreement that has already been    *)
+(* established against L = {}.                                             *)
+(*   "tie"    only ONE of several entries of the most specific wildcard    *)
+(*            pattern is used (which one depends on the entry order)       *)
+(*   "exact"  an exact address entry shadows only the wildcard entries     *)
+(*            that have something to say about the requested type          *)
+(*   "late"   an exception met on a canonical name lets the whole request  *)
+(*            pass through, as if the CNAME entries followed did not exist *)
+(* ("case", the letter case of canonical names, is a deviation too; it is  *)
+(* a property of the way the table is written, see OutcomesAnyCase.)       *)
+(***************************************************************************)
+Deviations == {"tie", "exact", "late"}
+
+(***************************************************************************)
+(* Which address entries compete for a question of type qt?                *)
+(*                                                                         *)
+(* "Within one kind an exact-name entry shadows wildcard entries": the     *)
+(* kinds are the two the statement has just named, CNAME and address       *)
+(* (findRewrites: "if the host is matched exactly, wildcard entries aren't *)
+(* returned").  So if ANY exact address entry -- either family, either     *)
+(* keyword -- matches, the exact address entries are the candidates and    *)
+(* the wildcard ones are out, also for a type the exact entries say        *)
+(* nothing about (the answer is then empty).                               *)
+(*                                                                         *)
+(* Among wildcards "the most specific wins"; the documentation adds "for   *)
+(* the question type" (findRewrites) and matchesQType includes the         *)
+(* keyword of the other family.  Which wildcard entries compete is         *)
+(* therefore SILENT (kind): all address entries ("kind"), those with       *)
+(* something to say about qt ("family"), or those plus both keywords       *)
+(* ("famexc").                                                             *)
 (***************************************************************************)
 Readings == {"kind", "family", "famexc"}
 
 \* m is MatchIdx(tab, h), the positions matching the host being resolved.
-AddrCands(tab, m, qt, r) ==
+AddrCands(tab, m, qt, r, L) ==
+    LET addr == {i \in m : ~IsCname(tab[i])}
+        ex   == {i \in addr : ~tab[i].w} IN
     IF Fam(qt) = "none" THEN {}
-    ELSE {i \in m :
-            /\ ~IsCname(tab[i])
-            /\ \/ r = "kind"
-               \/ HasValueFor(tab[i], qt)
-               \/ r = "famexc" /\ IsExc(tab[i])}
+    ELSE IF ex # {} /\ "exact" \notin L THEN ex
+    ELSE {i \in addr :
+            \/ r = "kind"
+            \/ HasValueFor(tab[i], qt)
+            \/ r = "famexc" /\ IsExc(tab[i])}
 
 (***************************************************************************)
-(* The selected entries.  Exact winners are ALL used (host.com -> 1.2.3.4, *)
-(* host.com -> 1.2.3.5 answers both; host.com -> 1.2.3.4, host.com -> AAAA *)
-(* are both in force).  Among equally specific wildcard entries the        *)
-(* documentation only promises "the most specific": under the literal      *)
-(* reading all of them answer, under the two per-type readings any         *)
-(* non-empty subset does -- SILENT (tie; the implementation sorts with an  *)
-(* unstable sort and keeps the first wildcard).                            *)
+(* The selected entries are ALL winners: host.com -> 1.2.3.4, host.com ->  *)
+(* 1.2.3.5 answers both; host.com -> 1.2.3.4, host.com -> AAAA are both in *)
+(* force; and the same for several entries of the most specific wildcard   *)
+(* pattern -- the property is quantified over duplicates and any entry     *)
+(* order, so the answer cannot depend on which of them comes first.        *)
 (***************************************************************************)
-AddrSelections(tab, m, qt, r) ==
-    LET win == BestOf(tab, AddrCands(tab, m, qt, r)) IN
+AddrSelections(tab, m, qt, r, L) ==
+    LET win == BestOf(tab, AddrCands(tab, m, qt, r, L)) IN
     IF win = {} THEN {{}}
-    ELSE IF (\E i \in win : ~tab[i].w) \/ r = "kind" THEN {win}
+    ELSE IF (\E i \in win : ~tab[i].w) \/ r = "kind" \/ "tie" \notin L THEN {win}
     ELSE (SUBSET win) \ {{}}
 
 \* What a selection S says for qt: the family's exception keyword is an
@@ -134,8 +158,8 @@ AddrResult(tab, S, qt) ==
     THEN [exc |-> TRUE, ips |-> {}]
     ELSE [exc |-> FALSE, ips |-> {tab[i].ip : i \in {j \in S : tab[j].k = Fam(qt)}}]
 
-AddrResults(tab, m, qt) ==
-    {AddrResult(tab, S, qt) : S \in UNION {AddrSelections(tab, m, qt, r) : r \in Readings}}
+AddrResults(tab, m, qt, L) ==
+    {AddrResult(tab, S, qt) : S \in UNION {AddrSelections(tab, m, qt, r, L) : r \in Readings}}
 
 \* ------------------------------------------------------------------ chase
 Pass == [r |-> "pass", canon |-> NoName, ips |-> {}, up |-> TRUE]
@@ -155,11 +179,12 @@ Cont(cs) == [done |-> FALSE, out |-> Pass, cs |-> cs]
 (*                                                                         *)
 (* 1. CNAME entries take precedence over address entries: if any CNAME     *)
 (*    entry matches, only CNAME entries are considered.                    *)
-(*    a. a "name to itself" entry is the pass-through exception.  For the  *)
-(*       queried name itself the request passes through.  When the chase   *)
-(*       arrives at such a name through other rewrites the statement does  *)
-(*       not say whether the whole request passes through or only the      *)
-(*       remaining name is resolved upstream -- SILENT (late exception).   *)
+(*    a. a "name to itself" entry is the pass-through exception of THAT    *)
+(*       name.  For the queried name itself the request passes through.    *)
+(*       When the chase arrives at such a name through other rewrites the  *)
+(*       CNAME entries followed so far stand ("a CNAME is followed ...     *)
+(*       else resolved upstream with the original name restored"): the     *)
+(*       canonical name is resolved upstream.                              *)
 (*    b. the canonical name was seen before: a cycle.  The statement only  *)
 (*       demands termination and no invented address -- SILENT (cycle):    *)
 (*       pass-through, or a CNAME to one of the names on the way resolved  *)
@@ -173,13 +198,14 @@ Cont(cs) == [done |-> FALSE, out |-> Pass, cs |-> cs]
 (*       without a value for this type = empty successful answer, never    *)
 (*       the upstream's.                                                   *)
 (***************************************************************************)
-StepResults(tab, h0, qt, cs) ==
+StepResults(tab, h0, qt, cs, L) ==
     LET h     == cs.h
         first == cs.canon = NoName
         m     == MatchIdx(tab, h)
         cw    == BestOf(tab, {i \in m : IsCname(tab[i])})     \* = CnameWinners(tab, h)
         Exception == IF first THEN {Done(Pass)}
-                     ELSE {Done(Pass), Done(Rw(cs.canon, {}, TRUE))}
+                     ELSE IF "late" \in L THEN {Done(Pass), Done(Rw(cs.canon, {}, TRUE))}
+                     ELSE {Done(Rw(cs.canon, {}, TRUE))}
     IN
     IF cw # {}
     THEN UNION {
@@ -193,43 +219,44 @@ StepResults(tab, h0, qt, cs) ==
     THEN IF first THEN {Done(Pass)} ELSE {Done(Rw(cs.canon, {}, TRUE))}
     ELSE UNION {
            IF a.exc THEN Exception ELSE {Done(Rw(cs.canon, a.ips, FALSE))}
-         : a \in AddrResults(tab, m, qt)}
+         : a \in AddrResults(tab, m, qt, L)}
 
 \* All outcomes reachable from a chase state.  The recursion is well founded
 \* because every Cont strictly enlarges visited by an answer of the table
 \* (checked by TLC: Rewrites!VariantGrows, Rewrites!VariantBounded and the
 \* liveness property Rewrites!Terminates).
-RECURSIVE OutcomesFrom(_, _, _, _)
-OutcomesFrom(tab, h0, qt, cs) ==
-    UNION {IF s.done THEN {s.out} ELSE OutcomesFrom(tab, h0, qt, s.cs)
-           : s \in StepResults(tab, h0, qt, cs)}
+RECURSIVE OutcomesFrom(_, _, _, _, _)
+OutcomesFrom(tab, h0, qt, cs, L) ==
+    UNION {IF s.done THEN {s.out} ELSE OutcomesFrom(tab, h0, qt, s.cs, L)
+           : s \in StepResults(tab, h0, qt, cs, L)}
 
-Outcomes(tab, h0, qt) == OutcomesFrom(tab, h0, qt, ChaseInit(h0))
+OutcomesL(tab, h0, qt, L) == OutcomesFrom(tab, h0, qt, ChaseInit(h0), L)
+\* The specification.
+Outcomes(tab, h0, qt) == OutcomesL(tab, h0, qt, {})
 
 (***************************************************************************)
-(* Letter case of the ANSWER of a CNAME entry -- SILENT (case).  Patterns  *)
-(* are documented to be normalised to lower case and request names are     *)
-(* compared case-insensitively, but neither the statement nor the          *)
-(* documentation says whether a canonical name written "Host.Example"      *)
-(* continues at the entry for host.example.  Two readings:                 *)
-(*   folded    it does: the table is the one with all names in lower case; *)
-(*   verbatim  it does not: such an answer is a name of its own that no    *)
-(*             pattern matches and that equals no pattern text (so it is   *)
-(*             neither followed nor a "name to itself").                   *)
-(* The harness only writes answers in which EVERY label differs in case    *)
-(* from the lower-case form, so "verbatim" is exactly "a foreign name":    *)
-(* Estrange appends a label no pattern ends in.  Names in outcomes are     *)
-(* compared case-insensitively (Unmark).  Termination is demanded under    *)
-(* either reading.                                                         *)
+(* Letter case of the ANSWER of a CNAME entry.  DNS names do not have a    *)
+(* letter case: a canonical name written "Host.Example" is host.example    *)
+(* -- it continues at the entry for host.example, and "Pass.Host.Com ->    *)
+(* Pass.Host.Com" is the documented "key" self exception.  The table of    *)
+(* the specification is therefore the one with all names folded to lower   *)
+(* case, whatever the spelling.  The deviation "case" (a finding) reads    *)
+(* such an answer verbatim: a name of its own that no pattern matches and  *)
+(* that equals no pattern text, so it is neither followed nor a "name to   *)
+(* itself".  The harness only writes answers in which EVERY label differs  *)
+(* in case from the lower-case form, so "verbatim" is exactly "a foreign   *)
+(* name": Estrange appends a label no pattern ends in.  Names in outcomes  *)
+(* are compared case-insensitively (Unmark).  Termination is demanded      *)
+(* whatever the spelling.                                                  *)
 (***************************************************************************)
 Mark == "^"
 Estrange(e) == IF IsCname(e) THEN [e EXCEPT !.t = @ \o <<Mark>>] ELSE e
 Unmark(n) == IF n # <<>> /\ n[Len(n)] = Mark THEN SubSeq(n, 1, Len(n) - 1) ELSE n
 UnmarkOut(o) == [o EXCEPT !.canon = Unmark(@)]
-\* mixed(i): is the answer of entry i written in another case?
-OutcomesAnyCase(tab, mixed(_), h0, qt) ==
-    Outcomes(tab, h0, qt) \cup
-    {UnmarkOut(o) : o \in Outcomes([i \in DOMAIN tab |-> IF mixed(i) THEN Estrange(tab[i]) ELSE tab[i]], h0, qt)}
+\* mixed(i): is the answer of entry i written in another case?  The outcomes
+\* when those answers are read verbatim (deviation "case"), other deviations L.
+OutcomesVerbatim(tab, mixed(_), h0, qt, L) ==
+    {UnmarkOut(o) : o \in OutcomesL([i \in DOMAIN tab |-> IF mixed(i) THEN Estrange(tab[i]) ELSE tab[i]], h0, qt, L)}
 
 (***************************************************************************)
 (* The table changes through three API calls; the outcome of a query       *)
@@ -261,6 +288,7 @@ FinalName(o, h0) == IF o.canon = NoName THEN h0 ELSE o.canon
 (*   "nodata"    no records, NOERROR                                       *)
 (*   "nxdomain"  no records, NXDOMAIN                                      *)
 (*   "servfail"  no records, SERVFAIL                                      *)
+(*   "error"     no reply at all (unreachable, timeout)                    *)
 (* The observation:                                                        *)
 (*   ask     the questions put to the upstream: none or exactly one        *)
 (*   cname   target of the CNAME record that leads the answer, or <<>>     *)
@@ -274,16 +302,27 @@ FinalName(o, h0) == IF o.canon = NoName THEN h0 ELSE o.canon
 (* the upstream says about the canonical name ("resolved upstream with     *)
 (* the original name restored in the answer").                             *)
 (***************************************************************************)
-UpModes == {"answer", "nodata", "nxdomain", "servfail"}
-UpRcode(m) == IF m = "nxdomain" THEN "NXDOMAIN" ELSE IF m = "servfail" THEN "SERVFAIL" ELSE "NOERROR"
+UpModes == {"answer", "nodata", "nxdomain", "servfail", "error"}
+UpRcode(m) == IF m = "nxdomain" THEN "NXDOMAIN" ELSE IF m \in {"servfail", "error"} THEN "SERVFAIL" ELSE "NOERROR"
 
+\* ("error": the upstream cannot be reached or times out.  The reply is a
+\* server failure without an answer section -- whether it still carries the
+\* CNAME record is SILENT (cnameopt) -- but, like every reply, for the client's
+\* own question.)
 Serve(o, h0, qt, UpMode(_)) ==
     IF o.r = "pass"
     THEN [ask |-> {<<h0, qt>>}, cname |-> NoName, ips |-> {},
-          fromup |-> IF UpMode(h0) = "answer" THEN h0 ELSE NoName, rcode |-> UpRcode(UpMode(h0))]
+          fromup |-> IF UpMode(h0) = "answer" THEN h0 ELSE NoName, rcode |-> UpRcode(UpMode(h0)),
+          cnameopt |-> FALSE]
     ELSE IF o.up
     THEN [ask |-> {<<o.canon, qt>>}, cname |-> o.canon, ips |-> {},
           fromup |-> IF UpMode(o.canon) = "answer" THEN o.canon ELSE NoName,
-          rcode |-> UpRcode(UpMode(o.canon))]
-    ELSE [ask |-> {}, cname |-> o.canon, ips |-> o.ips, fromup |-> NoName, rcode |-> "NOERROR"]
+          rcode |-> UpRcode(UpMode(o.canon)), cnameopt |-> UpMode(o.canon) = "error"]
+    ELSE [ask |-> {}, cname |-> o.canon, ips |-> o.ips, fromup |-> NoName, rcode |-> "NOERROR",
+          cnameopt |-> FALSE]
+
+\* The deviation "fwd" (a finding): a canonical name that is in the table
+\* without a value for the type is resolved upstream all the same.
+Forwarded(outs) ==
+    outs \cup {Rw(o.canon, {}, TRUE) : o \in {x \in outs : x.r = "rw" /\ x.canon # NoName /\ x.ips = {} /\ ~x.up}}
 =============================================================================
